@@ -234,21 +234,129 @@ theorem permutation_witnesses_exist (n : Nat) :
   · simp only [scrambleLegal, Bool.not_false, Bool.true_or, Bool.and_true]
     exact List.isPerm_iff.mpr (List.reverse_perm _)
 
-/-- The guards reject exactly what the documentation excludes: a rate-gated mutation errs iff its
-strength or rate is invalid; `SwapMutation::execute` errs iff `num_swap` exceeds the solution
-length; `DEMutation::from_params` accepts exactly `y ∈ {1,2}` with `f` in range. -/
-theorem no_spurious_rejection {β : Type} (sv rv : Bool) (r : β) (k y : Nat) (fr : Bool) (sol : List α) (w : List Nat) :
-    (rateGated sv rv r = .ok r ↔ sv = true ∧ rv = true) ∧
-    (swapMutation k sol w = .err ↔ sol.length < k) ∧
-    (deCtorOk y fr = true ↔ (y = 1 ∨ y = 2) ∧ fr = true) := by
+/-! ### Parameter guards: which parameter values every constructor / `execute` accepts.
+The guards are functions of the parameter VALUE (`Param F`: a finite number, `±∞` or NaN); the driver
+calls the same definitions on the `f64` the harness passed to the real component. -/
+
+section GuardTheorems
+variable {F : Type} [Field F] [LinearOrder F] [IsStrictOrderedRing F] {β : Type}
+
+/-- A mutation rate is accepted exactly when it is a finite number in `[0, 1]`. -/
+theorem rate_guard_exact (p : Param F) :
+    rateGuard p = true ↔ ∃ x, p = .fin x ∧ 0 ≤ x ∧ x ≤ 1 := by
+  cases p <;> simp [rateGuard]
+
+/-- `NormalMutation::execute` never panics on its parameters; it succeeds exactly for a finite
+standard deviation (negative ones included — the sampler mirrors them) and an accepted rate; in
+particular every documented value (`σ ≥ 0` finite, rate in `[0,1]`) is accepted. -/
+theorem normal_mutation_guards (σ rm : Param F) (r : β) :
+    (normalExec σ rm r = .ok r ↔ (∃ s, σ = .fin s) ∧ rateGuard rm = true) ∧
+    normalExec σ rm r ≠ .panic ∧
+    (∀ s x : F, 0 ≤ s → 0 ≤ x → x ≤ 1 → normalExec (.fin s) (.fin x) r = .ok r) := by
   refine ⟨?_, ?_, ?_⟩
-  · cases sv <;> cases rv <;> simp [rateGated]
-  · unfold swapMutation
-    by_cases h : sol.length < k
-    · simp [h]
-    · simp only [h, if_false, iff_false]
-      cases circularSwap sol w <;> simp
-  · simp [deCtorOk]
+  · cases σ <;> cases h : rateGuard rm <;> simp [normalExec, normalStrengthGuard, h]
+  · cases σ <;> cases h : rateGuard rm <;> simp [normalExec, normalStrengthGuard, h]
+  · intro s x _ h0 h1; simp [normalExec, normalStrengthGuard, rateGuard, h0, h1]
+
+/-- `UniformMutation::execute` succeeds exactly for a finite bound `≥ 0` (zero included) and an
+accepted rate; the only panic is the infinite bound, which passes `bound >= 0` and fails inside
+`Uniform::new_inclusive` (outside the documented domain). -/
+theorem uniform_mutation_guards (b rm : Param F) (r : β) :
+    (uniformExec b rm r = .ok r ↔ (∃ x, b = .fin x ∧ 0 ≤ x) ∧ rateGuard rm = true) ∧
+    (uniformExec b rm r = .panic ↔ b = .posInf) := by
+  constructor
+  · cases b with
+    | fin x => by_cases hx : 0 ≤ x <;> cases h : rateGuard rm <;> simp [uniformExec, uniformBoundGuard, hx, h]
+    | posInf => simp [uniformExec, uniformBoundGuard]
+    | negInf => simp [uniformExec, uniformBoundGuard]
+    | nan => simp [uniformExec, uniformBoundGuard]
+  · cases b with
+    | fin x => by_cases hx : 0 ≤ x <;> cases h : rateGuard rm <;> simp [uniformExec, uniformBoundGuard, hx, h]
+    | posInf => simp [uniformExec, uniformBoundGuard]
+    | negInf => simp [uniformExec, uniformBoundGuard]
+    | nan => simp [uniformExec, uniformBoundGuard]
+
+/-- The components that guard only their rate accept exactly the accepted rates. -/
+theorem rate_only_guards (rm : Param F) (r : β) :
+    (rateExec rm r = .ok r ↔ rateGuard rm = true) ∧ rateExec rm r ≠ .panic := by
+  cases h : rateGuard rm <;> simp [rateExec, h]
+
+/-- `DEMutation::from_params` accepts exactly `y ∈ {1, 2}` with a finite `f ∈ [0, 2]` (the documented
+`(0, 2]` plus `f = 0`). -/
+theorem de_ctor_guard_exact (y : Nat) (f : Param F) :
+    deCtorGuard y f = true ↔ (y = 1 ∨ y = 2) ∧ ∃ x, f = .fin x ∧ 0 ≤ x ∧ x ≤ 2 := by
+  cases f <;> simp [deCtorGuard, and_assoc]
+end GuardTheorems
+
+/-- `SwapMutation`: the constructor accepts exactly `num_swap ≥ 2`, `execute` errs exactly when
+`num_swap` exceeds the solution length (and then never panics first). -/
+theorem swap_guards_exact (k : Nat) (sol : List α) (w : List Nat) :
+    (swapCtorGuard k = true ↔ 2 ≤ k) ∧ (swapMutation k sol w = .err ↔ sol.length < k) := by
+  refine ⟨by simp [swapCtorGuard], ?_⟩
+  unfold swapMutation
+  by_cases h : sol.length < k
+  · simp [h]
+  · simp only [h, if_false, iff_false]
+    cases circularSwap sol w <;> simp
+
+/-! ### `NPointCrossover` / `UniformCrossover` as components (`recombine` on one pair) -/
+
+/-- `NPointCrossover` with `1 ≤ n < dim` on parents of the problem's dimension: for every legal
+witness (the `n` distinct cut positions `choose_multiple` returned) no panic, and the child(ren)
+are position-wise with both genes conserved. Partial: the region `n = 0 ∨ n ≥ dim`, which the
+constructor also accepts, is excluded — see `npoint_n_out_of_range_violates`. -/
+theorem npoint_component_partial (n : Nat) (p1 p2 : List α) (cuts : List Nat) (hl : p1.length = p2.length)
+    (h1 : 1 ≤ n) (h2 : n < p1.length) (hc : nPointLegal n p1.length cuts = true) (insertBoth : Bool) :
+    ∃ c1 c2, nPointRecombine true cuts insertBoth p1 p2 = some (OptPair.fromPair (c1, c2) insertBoth) ∧
+      c1.length = p1.length ∧ c2.length = p1.length ∧
+      ∀ k : Nat, (c1[k]? = p1[k]? ∧ c2[k]? = p2[k]?) ∨ (c1[k]? = p2[k]? ∧ c2[k]? = p1[k]?) := by
+  simp only [nPointLegal, Bool.and_eq_true, beq_iff_eq, allBelow_iff] at hc
+  obtain ⟨⟨hlen, _⟩, hr⟩ := hc
+  have hlen' : cuts.length = n := by omega
+  have hne : cuts ≠ [] := by intro h; rw [h] at hlen'; simp at hlen'; omega
+  obtain ⟨c1, c2, h, l1, l2, _⟩ := multi_point_positionwise p1 p2 cuts hl hne (by omega)
+    (fun x hx => Nat.le_of_lt (hr x hx))
+  obtain ⟨d1, d2, h', hk⟩ := multi_point_genes_conserved p1 p2 cuts hl hne (by omega)
+    (fun x hx => Nat.le_of_lt (hr x hx))
+  have : (d1, d2) = (c1, c2) := Option.some.inj (h'.symm.trans h)
+  obtain ⟨rfl, rfl⟩ := Prod.mk.inj this
+  exact ⟨d1, d2, by simp [nPointRecombine, recombine, h], l1, l2, hk⟩
+
+/-- The full statement (no panic for every `n` the constructor accepts), kept visible; it is refuted below. -/
+def npoint_component_full : Prop :=
+  ∀ (n : Nat) (p1 p2 : List Nat) (cuts : List Nat), p1.length = p2.length → 0 < p1.length →
+    nPointLegal n p1.length cuts = true → (nPointRecombine true cuts true p1 p2).isSome
+
+/-- Counterexample region: with `n = 0` or `n ≥ dim` EVERY legal witness makes a crossed pair panic
+in the `#[requires]` contract of `multi_point_crossover` (an empty cut list, resp. as many cuts as genes). -/
+theorem npoint_n_out_of_range_violates (n : Nat) (p1 p2 : List α) (cuts : List Nat)
+    (hc : nPointLegal n p1.length cuts = true) (hbad : n = 0 ∨ p1.length ≤ n) (insertBoth : Bool) :
+    nPointRecombine true cuts insertBoth p1 p2 = none := by
+  simp only [nPointLegal, Bool.and_eq_true, beq_iff_eq] at hc
+  obtain ⟨⟨hlen, _⟩, _⟩ := hc
+  simp only [nPointRecombine, recombine, if_true, multiPointCrossover]
+  rcases hbad with h0 | hge
+  · have : cuts = [] := by
+      apply List.eq_nil_of_length_eq_zero; rw [hlen, h0]; simp
+    simp [this]
+  · have hl : cuts.length = p1.length := by rw [hlen]; exact Nat.min_eq_right hge
+    by_cases he : cuts.isEmpty = true
+    · simp [he]
+    · simp [he, hl]
+
+theorem npoint_component_full_refuted : ¬ npoint_component_full := by
+  intro h
+  have := h 0 [1, 2] [3, 4] [] rfl (by decide) (by decide)
+  revert this; decide
+
+/-- `UniformCrossover` on a pair of the problem's dimension: no panic for every mask, position-wise. -/
+theorem uniform_component (p1 p2 : List α) (mask : List Bool) (hl : p1.length = p2.length)
+    (hm : mask.length = min p1.length p2.length) (insertBoth : Bool) :
+    ∃ c1 c2, uniformRecombine true mask insertBoth p1 p2 = some (OptPair.fromPair (c1, c2) insertBoth) ∧
+      ∀ k : Nat, k < p1.length →
+        (c1[k]? = p1[k]? ∧ c2[k]? = p2[k]?) ∨ (c1[k]? = p2[k]? ∧ c2[k]? = p1[k]?) := by
+  obtain ⟨c1, c2, h, hk⟩ := uniform_genes_conserved p1 p2 mask hl (by omega)
+  exact ⟨c1, c2, by simp [uniformRecombine, recombine, h], hk⟩
 
 /-- Offspring counts: every pair contributes both parents (no crossover), one child (insert-one) or
 two children (insert-both); an odd remainder passes through. -/
@@ -323,6 +431,9 @@ example : deExpLegal false false 4 [true, false, false, true] = true := by decid
 example : deExpLegal true false 4 [false, false, true, false] = true := by decide
 example : deMutation 1 (2 : Int) [[1, 1], [5, 0], [2, 7], [0, 0], [1, 1], [1, 1]] = .ok [[7, -13], [0, 0]] := by decide
 example : maskLegal true false [false, false, false] 3 = true := by decide
+example : nPointLegal 2 5 [4, 1] = true ∧ nPointLegal 0 2 [] = true ∧ nPointLegal 7 2 [1, 0] = true := by decide
+example : rateGuard (Param.fin (1 : Int)) = true ∧ rateGuard (Param.nan : Param Int) = false ∧
+    uniformBoundGuard (Param.posInf : Param Int) = .panic ∧ normalStrengthGuard (Param.fin (-3 : Int)) = true := by decide
 /-- draws in `[0,1)`: the smallest draw no longer crosses at probability 0, and crosses at 0.3 -/
 example : crossedBy (0 : Int) 0 = false ∧ crossedBy (0 : Int) 1 = true := by decide
 example : (0 : Rat) ≤ 0 ∧ (0 : Rat) < 1 ∧ (0 : Rat) ≤ 999 / 1000 ∧ (999 / 1000 : Rat) < 1 := by norm_num
